@@ -308,11 +308,15 @@ BeginLatest(s) ==
 
 ValidDeps(deps) == deps # <<>> /\ \A i \in DOMAIN deps : deps[i].n > 0
 
-BeginFund(s, deps, sf) ==
+\* af: class of the deposit AMOUNTS.  "ok": the amounts deps[i].n.  Otherwise the renter sends amounts
+\* near the top of the 128-bit range (the harness builds them): "ovfLast" the sum overflows at its last
+\* addition, "ovfMid" a partial sum overflows but the last addition does not (the wrapped total would be
+\* small), "tooBig" no overflow but more than the renter payout.  All of them: error, nothing changes.
+BeginFund(s, deps, sf, af) ==
     /\ Idle(s)
     /\ LET total == SumSeq(Amounts(deps))
-       IN /\ act' = [op |-> "BeginFund", s |-> s, deps |-> deps, sf |-> sf, cost |-> total]
-          /\ IF ~ValidDeps(deps) \/ Locked \/ ~CanPay(rev, total, 0) \/ sf # "ok"
+       IN /\ act' = [op |-> "BeginFund", s |-> s, deps |-> deps, sf |-> sf, af |-> af, cost |-> total]
+          /\ IF af # "ok" \/ ~ValidDeps(deps) \/ Locked \/ ~CanPay(rev, total, 0) \/ sf # "ok"
              THEN Reject(s, "fund")
              ELSE /\ rev' = Pay(rev, total, 0)
                   /\ sigs' = [r |-> rev', h |-> rev']
@@ -334,10 +338,12 @@ ReplDeps(kind, accs, target) ==
          n |-> IF ~DevReplDup /\ \E j \in 1..(i - 1) : accs[j] = accs[i] THEN 0
                ELSE Max(target - Bal(kind)[accs[i]], 0)]]
 
-BeginRepl(s, kind, accs, target, cf) ==
+\* af: class of the TARGET.  "ok": target.  "ovfLast" / "ovfMid": a target near the top of the 128-bit
+\* range over several (distinct) accounts, so that the sum of the deposits overflows: error, nothing changes.
+BeginRepl(s, kind, accs, target, cf, af) ==
     /\ Idle(s)
-    /\ act' = [op |-> "BeginRepl", s |-> s, kind |-> kind, accs |-> accs, target |-> target, cf |-> cf]
-    /\ IF accs = <<>> \/ target <= 0 \/ Locked \/ cf # "ok"
+    /\ act' = [op |-> "BeginRepl", s |-> s, kind |-> kind, accs |-> accs, target |-> target, cf |-> cf, af |-> af]
+    /\ IF af # "ok" \/ accs = <<>> \/ target <= 0 \/ Locked \/ cf # "ok"
        THEN Reject(s, "repl")
        ELSE LET deps == ReplDeps(kind, accs, target)
                 sum  == SumSeq(Amounts(deps))
@@ -530,7 +536,7 @@ CommitHoldsLock == [][Committed => (lock' = act'.s /\ lock \in {0, act'.s})]_var
 Flawed(a) ==
     \/ ("pf" \in DOMAIN a /\ a.pf # "ok") \/ ("cf" \in DOMAIN a /\ a.cf # "ok")
     \/ ("sf" \in DOMAIN a /\ a.sf # "ok") \/ ("tf" \in DOMAIN a /\ a.tf # "ok")
-    \/ ("rf" \in DOMAIN a /\ a.rf # "ok")
+    \/ ("rf" \in DOMAIN a /\ a.rf # "ok") \/ ("af" \in DOMAIN a /\ a.af # "ok")
 BadRequestIsNoop == [][Flawed(act') => UNCHANGED data]_vars
 
 \* C09: whatever happens, an abort / failure / hang-up is a no-op, and roots change only with a commit
